@@ -206,6 +206,192 @@ theorem mapFieldB_sound {f : FieldD} (h : mapFieldB f = true) : MapField f := by
       k, abs, first, rest, isIdentB_sound hki, isIdentB_sound hf, fun r hr' => isIdentB_sound (hr r hr'), heq⟩
   · simp at hty
 
+/-! ## fields with options: the evaluation `OptField` asks for -/
+
+mutual
+def optEq : Opt → Opt → Bool
+  | .scalar k v, .scalar k' v' => k == k' && v == v'
+  | .msg k ks, .msg k' ks' => k == k' && optsEq ks ks'
+  | .arr k ks, .arr k' ks' => k == k' && optsEq ks ks'
+  | _, _ => false
+def optsEq : List Opt → List Opt → Bool
+  | [], [] => true
+  | a :: r, b :: r' => optEq a b && optsEq r r'
+  | _, _ => false
+end
+
+mutual
+theorem optEq_sound : ∀ (a b : Opt), optEq a b = true → a = b
+  | .scalar k v, .scalar k' v', h => by
+    simp only [optEq, Bool.and_eq_true, beq_iff_eq] at h
+    rw [h.1, h.2]
+  | .msg k ks, .msg k' ks', h => by
+    simp only [optEq, Bool.and_eq_true, beq_iff_eq] at h
+    rw [h.1, optsEq_sound ks ks' h.2]
+  | .arr k ks, .arr k' ks', h => by
+    simp only [optEq, Bool.and_eq_true, beq_iff_eq] at h
+    rw [h.1, optsEq_sound ks ks' h.2]
+  | .scalar _ _, .msg _ _, h => by simp [optEq] at h
+  | .scalar _ _, .arr _ _, h => by simp [optEq] at h
+  | .msg _ _, .scalar _ _, h => by simp [optEq] at h
+  | .msg _ _, .arr _ _, h => by simp [optEq] at h
+  | .arr _ _, .scalar _ _, h => by simp [optEq] at h
+  | .arr _ _, .msg _ _, h => by simp [optEq] at h
+theorem optsEq_sound : ∀ (a b : List Opt), optsEq a b = true → a = b
+  | [], [], _ => rfl
+  | x :: r, y :: r', h => by
+    simp only [optsEq, Bool.and_eq_true] at h
+    rw [optEq_sound x y h.1, optsEq_sound r r' h.2]
+  | [], _ :: _, h => by simp [optsEq] at h
+  | _ :: _, [], h => by simp [optsEq] at h
+end
+
+def optOkB (o o' : SOpt) : Bool :=
+  o'.name == o.name && optsEq (o'.stmts.map eraseKeys) (o.stmts.map eraseKeys) &&
+  (o.stmts.all (fun v => (inlineString true v).isNone) || o'.single)
+
+theorem optOkB_sound {o o' : SOpt} (h : optOkB o o' = true) : optOk o o' := by
+  simp only [optOkB, Bool.and_eq_true, beq_iff_eq, Bool.or_eq_true, List.all_eq_true] at h
+  refine ⟨h.1.1, optsEq_sound _ _ h.1.2, ?_⟩
+  intro v hv hne
+  rcases h.2 with h2 | h2
+  · have := h2 v hv
+    cases hi : inlineString true v with
+    | none => exact absurd hi hne
+    | some x => simp [hi] at this
+  · exact h2
+
+def fieldOkB (f f' : FieldD) : Bool :=
+  decide (f'.kind = f.kind) && f'.label == f.label && f'.type == f.type && f'.name == f.name && f'.number == f.number &&
+  f'.json == f.json && locNoneB f'.loc && f.opts.length == f'.opts.length &&
+  (f.opts.zip f'.opts).all (fun p => optOkB p.1 p.2) &&
+  (match f.popts with
+   | [p] => p.inl.isNone || f'.opts.all (·.inl)
+   | _ => true)
+
+theorem fieldOkB_sound {f f' : FieldD} (h : fieldOkB f f' = true) : fieldOk f f' := by
+  simp only [fieldOkB, Bool.and_eq_true, beq_iff_eq, decide_eq_true_eq, List.all_eq_true] at h
+  obtain ⟨⟨⟨⟨⟨⟨⟨⟨⟨h1, h2⟩, h3⟩, h4⟩, h5⟩, h6⟩, h7⟩, h8⟩, h9⟩, h10⟩ := h
+  refine ⟨h1, h2, h3, h4, h5, h6, locNoneB_sound h7, h8, fun p hp => optOkB_sound (h9 p hp), ?_⟩
+  intro p hp hne o' ho'
+  rw [hp] at h10
+  simp only [Bool.or_eq_true, List.all_eq_true] at h10
+  rcases h10 with h | h
+  · cases hi : p.inl with
+    | none => exact absurd hi hne
+    | some x => simp [hi] at h
+  · exact h o' ho'
+
+/-- the way the type is written, if it is one the theorem knows -/
+def tyW (label : String) (ty : String) : Option TyW :=
+  match tyParts ty.toList with
+  | some (abs, first, rest) =>
+    if isIdentB first && rest.all isIdentB && (abs || first != "map") && (!(label == "") || abs || kwOkB first) &&
+        ty == tyStr abs first rest then some (.plain abs first rest)
+    else
+      match mapParts ty.toList with
+      | some (k, a, fi, r) =>
+        if label == "" && isIdentB k && isIdentB fi && r.all isIdentB && ty == mapTy k a fi r then some (.map k a fi r) else none
+      | none => none
+  | none =>
+    match mapParts ty.toList with
+    | some (k, a, fi, r) =>
+      if label == "" && isIdentB k && isIdentB fi && r.all isIdentB && ty == mapTy k a fi r then some (.map k a fi r) else none
+    | none => none
+
+theorem kwOkB_sound {s : String} (h : kwOkB s = true) : kwOk s := by
+  unfold kwOkB at h
+  simp only [Bool.and_eq_true, bne_iff_ne, ne_eq] at h
+  exact ⟨h.1.1.1.1.1, h.1.1.1.1.2, h.1.1.1.2, h.1.1.2, h.1.2, h.2⟩
+
+theorem mapW_sound {label ty k : String} {a : Bool} {fi : String} {r : List String}
+    (h : (label == "" && isIdentB k && isIdentB fi && r.all isIdentB && ty == mapTy k a fi r) = true) :
+    (TyW.map k a fi r).ok label ∧ ty = (TyW.map k a fi r).str := by
+  simp only [Bool.and_eq_true, beq_iff_eq, List.all_eq_true] at h
+  obtain ⟨⟨⟨⟨h1, h2⟩, h3⟩, h4⟩, h5⟩ := h
+  exact ⟨⟨h1, isIdentB_sound h2, isIdentB_sound h3, fun x hx => isIdentB_sound (h4 x hx)⟩, h5⟩
+
+theorem tyW_sound {label ty : String} {w : TyW} (h : tyW label ty = some w) : w.ok label ∧ ty = w.str := by
+  unfold tyW at h
+  split at h
+  · rename_i abs first rest _
+    split at h
+    · rename_i hc
+      simp only [Option.some.injEq] at h
+      subst h
+      simp only [Bool.and_eq_true, Bool.or_eq_true, List.all_eq_true, bne_iff_ne, ne_eq, Bool.not_eq_true',
+        beq_eq_false_iff_ne, beq_iff_eq] at hc
+      obtain ⟨⟨⟨⟨hf, hr⟩, hmap⟩, hkw⟩, hty⟩ := hc
+      refine ⟨⟨isIdentB_sound hf, fun x hx => isIdentB_sound (hr x hx), ?_, ?_⟩, hty⟩
+      · intro ha
+        rcases hmap with h | h
+        · rw [ha] at h; cases h
+        · exact h
+      · intro hl ha
+        rcases hkw with (h | h) | h
+        · exact absurd hl h
+        · rw [ha] at h; cases h
+        · exact kwOkB_sound h
+    · split at h
+      · split at h
+        · rename_i hc
+          simp only [Option.some.injEq] at h
+          subst h
+          exact mapW_sound hc
+        · simp at h
+      · simp at h
+  · split at h
+    · split at h
+      · rename_i hc
+        simp only [Option.some.injEq] at h
+        subst h
+        exact mapW_sound hc
+      · simp at h
+    · simp at h
+
+def optFieldB (f : FieldD) : Bool :=
+  (match f.kind with | .field => true | .value => false) && locNoneB f.loc && f.opts.all (fun o => !o.hasLoc) &&
+  labelOkB f.label && isIdentB f.name && !f.popts.isEmpty &&
+  (fieldLines 0 f).all (fun l => l.toList.all (fun c => c != '\n' && c != '/')) &&
+  (match tyW f.label f.type with
+   | some w =>
+     decide (fieldToks0 f = headToks f w 0 ++ rdBody f) &&
+     (match bracketOpts ((rdBody f).length + 1) (rdBody f) with
+      | some (_, [⟨.sym ';', e, _⟩]) => e + 1 == (fieldLines 0 f).length
+      | _ => false)
+   | none => false) &&
+  fieldOkB f (rdField0 f)
+
+theorem optFieldB_sound {f : FieldD} (h : optFieldB f = true) : OptField f := by
+  unfold optFieldB at h
+  simp only [Bool.and_eq_true] at h
+  obtain ⟨⟨⟨⟨⟨⟨⟨⟨hk, hl⟩, hu⟩, hlab⟩, hn⟩, hne⟩, hnoch⟩, hread⟩, hok⟩ := h
+  have hkind : f.kind = .field := by cases hk' : f.kind <;> simp_all
+  refine ⟨hkind, locNoneB_sound hl, ?_, ?_, isIdentB_sound hn, ?_, ?_, ?_, fieldOkB_sound hok⟩
+  · intro o ho
+    simp only [List.all_eq_true, Bool.not_eq_true'] at hu
+    exact hu o ho
+  · unfold labelOkB at hlab
+    simp only [Bool.or_eq_true, beq_iff_eq] at hlab
+    rcases hlab with (h | h) | h
+    · exact Or.inl h
+    · exact Or.inr (Or.inl h)
+    · exact Or.inr (Or.inr h)
+  · intro he; simp [he] at hne
+  · intro l hl c hc
+    simp only [List.all_eq_true, Bool.and_eq_true, bne_iff_ne, ne_eq] at hnoch
+    exact hnoch l hl c hc
+  · split at hread
+    · rename_i w hw
+      obtain ⟨hwok, hty⟩ := tyW_sound hw
+      simp only [Bool.and_eq_true, decide_eq_true_eq] at hread
+      obtain ⟨htoks, hbr⟩ := hread
+      split at hbr
+      · rename_i raws e c hb
+        exact ⟨w, raws, e, c, hwok, hty, htoks, hb, by simpa using hbr⟩
+      · simp at hbr
+    · simp at hread
+
 def simpleValueB (f : FieldD) : Bool :=
   (match f.kind with | .value => true | .field => false) && locNoneB f.loc && f.opts.isEmpty && f.label == "" &&
   f.type == "" && isIdentB f.name && f.name != "option" && f.json.isNone
@@ -245,7 +431,7 @@ theorem simpleMembersB_sound : ∀ es, simpleMembersB es = true → SimpleMember
 
 mutual
 def simpleItemB : Item → Bool
-  | .field f => simpleFieldB f || mapFieldB f
+  | .field f => simpleFieldB f || mapFieldB f || optFieldB f
   | .rpc _ _ _ _ _ _ => false
   | .block kw t l _ name os ks =>
     locNoneB l && os.isEmpty && isIdentB name &&
@@ -261,9 +447,10 @@ theorem simpleItemB_sound : ∀ e, simpleItemB e = true → SimpleItem e
   | .field f, h => by
     simp only [simpleItemB, Bool.or_eq_true] at h
     simp only [SimpleItem]
-    rcases h with h | h
+    rcases h with (h | h) | h
     · exact Or.inl (simpleFieldB_sound h)
-    · exact Or.inr (mapFieldB_sound h)
+    · exact Or.inr (Or.inl (mapFieldB_sound h))
+    · exact Or.inr (Or.inr (optFieldB_sound h))
   | .rpc _ _ _ _ _ _, h => by simp [simpleItemB] at h
   | .block kw t l _ name os ks, h => by
     simp only [simpleItemB, Bool.and_eq_true, Bool.or_eq_true, beq_iff_eq] at h
@@ -433,6 +620,7 @@ def locTags (l : Loc) : List String :=
   []
 
 def fieldTags (f : FieldD) : List String :=
+  if optFieldB f then [] else
   locTags f.loc ++ (if f.opts.isEmpty then [] else ["options"]) ++
   (match f.kind, f.json with
    | .field, some j => if j.toList != defaultJSONName f.name.toList then ["json_name"] else []
